@@ -126,9 +126,11 @@ def classify_shape(t: ast.Module) -> dict:
     if isinstance(exc, PermissionError): return AuthReason.X; return AuthReason.Y"""
     fn = _func(t, "classify_auth_failure")
     body = _body(fn)
-    rec = {"recognised": False, "cls": "", "then": "", "else": ""}
+    rec = {"recognised": False, "cls": "", "then": "", "else": "", "guard": ""}
     try:
         a, i1, i2, r = body
+        if isinstance(i1, ast.If):
+            rec["guard"] = ast.unparse(i1.test)
         ok = (
             ast.unparse(a) == "declared = getattr(exc, REASON_ATTR, None)"
             and isinstance(i1, ast.If)
@@ -831,6 +833,8 @@ def reasonAttr : String := {q(str(reason_attr))}
 
 /-- `classify_auth_failure`: declared attribute (when an `AuthReason`) wins; `isinstance(exc, <cls>)` → `<then>`; else `<else>` -/
 def classifyRecognised : Bool := {b(cs["recognised"])}
+/-- the test under which the declared attribute is returned as the reason (anything else falls through to the guess) -/
+def classifyGuard : String := {q(cs["guard"])}
 def classifyClass : String := {q(cs["cls"])}
 def classifyThen : String := {q(cs["then"])}
 def classifyElse : String := {q(cs["else"])}
